@@ -121,11 +121,19 @@ def tier_cfg(prop, tier):
     return cfg, cfg["tiers"][tier]
 
 
+def _stage_cfg(cfg, tc, stage):
+    if stage is None:
+        return cfg["engine"], tc["opts"]
+    st = cfg["extra_stages"][stage]
+    return st["engine"], st["opts"]
+
+
 def print_digests(args):
     cfg, tc = tier_cfg(args.prop, args.tier)
+    engine, opts = _stage_cfg(cfg, tc, args.stage)
     a, b = args.seeds.split(":")
     seeds = list(range(int(a), int(b)))
-    res = batch.run_seeds(cfg["engine"], seeds, args.tier, args.jobs, tc["opts"])
+    res = batch.run_seeds(engine, seeds, args.tier, args.jobs, opts)
     for r in res:
         if r.get("harness_error"):
             out(f"DIGEST {r['seed']} HARNESS {r['harness_error'][:200]!r}")
@@ -136,36 +144,38 @@ def print_digests(args):
 
 def determinism_stage(args, cfg, tc, n):
     """Same seeds: this process pool vs fresh interpreters with other hash
-    seeds and worker counts; digests and verdicts must agree."""
-    seeds = seeds_for(args, n)
-    mine = batch.run_seeds(cfg["engine"], seeds, args.tier, args.jobs, tc["opts"])
-    ref = {r["seed"]: (r.get("digest"), len(r["violations"]), batch.violation_class(r), bool(r.get("harness_error"))) for r in mine}
-    mismatches = []
-    compared = 0
-    for hashseed, jobs in (("12345", 1), ("987", max(2, args.jobs // 2))):
-        e = dict(os.environ)
-        e["PYTHONHASHSEED"] = hashseed
-        e["EKOSIM_NO_REEXEC"] = "1"
-        p = subprocess.run(
-            [sys.executable, os.path.join(env.VERIF, "check.py"), args.prop, "--tier", args.tier, "--digests", "--seeds", f"{seeds[0]}:{seeds[-1] + 1}", "--jobs", str(jobs)],
-            env=e,
-            capture_output=True,
-            text=True,
-            timeout=3600,
-        )
-        if p.returncode != 0:
-            raise batch.HarnessError(f"determinism stage subprocess failed: {p.stdout[-2000:]} {p.stderr[-2000:]}")
-        for line in p.stdout.splitlines():
-            if not line.startswith("DIGEST "):
-                continue
-            _, s, dg, nv, cls = line.split(" ", 4) if line.count(" ") >= 4 else (line.split(" ") + [""])[:5]
-            s = int(s)
-            compared += 1
-            got = (dg, int(nv) if nv.isdigit() else -1, None if cls == "None" else cls)
-            exp = (str(ref[s][0]), ref[s][1], ref[s][2])
-            if got != exp:
-                mismatches.append(dict(seed=s, hashseed=hashseed, jobs=jobs, got=got, expected=exp))
-    return dict(seeds=len(seeds), comparisons=compared, mismatches=len(mismatches), detail=mismatches[:5])
+    seeds and worker counts; digests and verdicts must agree.  Covers the main
+    engine and every extra stage of the property."""
+    tot = dict(seeds=0, comparisons=0, mismatches=0, detail=[])
+    for stage in [None] + list(range(len(cfg.get("extra_stages", [])))):
+        engine, opts = _stage_cfg(cfg, tc, stage)
+        seeds = seeds_for(args, n if stage is None else 4 * n)
+        mine = batch.run_seeds(engine, seeds, args.tier, args.jobs, opts)
+        ref = {r["seed"]: (r.get("digest"), len(r["violations"]), batch.violation_class(r), bool(r.get("harness_error"))) for r in mine}
+        tot["seeds"] += len(seeds)
+        for hashseed, jobs in (("12345", 1), ("987", max(2, args.jobs // 2))):
+            e = dict(os.environ)
+            e["PYTHONHASHSEED"] = hashseed
+            e["EKOSIM_NO_REEXEC"] = "1"
+            cmd = [sys.executable, os.path.join(env.VERIF, "check.py"), args.prop, "--tier", args.tier, "--digests", "--seeds", f"{seeds[0]}:{seeds[-1] + 1}", "--jobs", str(jobs)]
+            if stage is not None:
+                cmd += ["--stage", str(stage)]
+            p = subprocess.run(cmd, env=e, capture_output=True, text=True, timeout=3600)
+            if p.returncode != 0:
+                raise batch.HarnessError(f"determinism stage subprocess failed: {p.stdout[-2000:]} {p.stderr[-2000:]}")
+            for line in p.stdout.splitlines():
+                if not line.startswith("DIGEST "):
+                    continue
+                _, s, dg, nv, cls = line.split(" ", 4) if line.count(" ") >= 4 else (line.split(" ") + [""])[:5]
+                s = int(s)
+                tot["comparisons"] += 1
+                got = (dg, int(nv) if nv.isdigit() else -1, None if cls == "None" else cls)
+                exp = (str(ref[s][0]), ref[s][1], ref[s][2])
+                if got != exp:
+                    tot["mismatches"] += 1
+                    tot["detail"].append(dict(stage=stage, seed=s, hashseed=hashseed, jobs=jobs, got=got, expected=exp))
+    tot["detail"] = tot["detail"][:5]
+    return tot
 
 
 def selftest(args):
